@@ -407,13 +407,27 @@ def run_endpoint(inp):
     rec["gp_builds"].append(h)
     return gp
 
+  def failure_gps(fm):
+    """the GPs under a failure model (a product of failure models, possibly nested), in order"""
+    if fm is None:
+      return []
+    if hasattr(fm, "list_of_probabilistic_failures"):
+      return [g for f in fm.list_of_probabilistic_failures for g in failure_gps(f)]
+    pred = fm.predictor
+    return list(pred.gaussian_process_list) if isinstance(pred, GaussianProcessSum) else [pred]
+
   def describe_af(af, qei):
+    """what the optimiser is handed, AT THE MOMENT IT IS CALLED: the data of every GP of the predictor and of every GP under the
+    failure model (by object identity, so that they can be matched with the form_single_gaussian_process calls), the pending set"""
     inner = getattr(af, "underlying", af)
     pred = inner.predictor
     comps = pred.gaussian_process_list if isinstance(pred, GaussianProcessSum) else [pred]
     pend = getattr(inner, "points_being_sampled", None)
+    fgps = failure_gps(getattr(inner, "failure_model", None))
     return dict(qei=qei, af_class=type(inner).__name__, multitask_wrapper=inner is not af, predictor_ids=[id(g) for g in comps],
-                predictor_data=[gp_data(g) for g in comps], pending_set=None if pend is None else tolist2(pend))
+                predictor_data=[gp_data(g) for g in comps], pending_set=None if pend is None else tolist2(pend),
+                failure_ids=[id(g) for g in fgps], failure_data=[gp_data(g) for g in fgps],
+                wrapper_sees_predictor=getattr(af, "predictor", None) is pred)
 
   def stub_cl(domain, af, num_to_sample):
     rec["af"] = describe_af(af, False)
